@@ -246,8 +246,10 @@ def merge_evidence(pid, tier, seed, work, wall, nviol, fuzz_results, notes):
                "Go toolchain, runtime and pgregory.net/rapid behave as documented",
                "verdict = held on the cases explored by this run; nothing is proved beyond them"] + notes,
            "wall_s": round(wall, 2), "violations": nviol}
-    os.makedirs(os.path.join(ROOT, "evidence"), exist_ok=True)
-    with open(os.path.join(ROOT, "evidence", pid + ".json"), "w") as f:
+    # a run against an overlay (a mutant or a seeded change) is not evidence about /repo: keep it with the run
+    evdir = work if os.environ.get("VERIF_OVERLAY") else os.path.join(ROOT, "evidence")
+    os.makedirs(evdir, exist_ok=True)
+    with open(os.path.join(evdir, pid + ".json"), "w") as f:
         json.dump(evd, f, indent=1, default=str)
     return evaluations, distinct
 
